@@ -76,11 +76,14 @@ func snapDir(sb *strings.Builder, base, rel string) {
 		t, _ := os.Readlink(full)
 		fmt.Fprintf(sb, "%s|l%o|%d|%d|%d|%d|%d|%s||%v\n", rel, mode&0o7777, st.Size, st.Mtim.Nano(), st.Ctim.Nano(), st.Ino, st.Nlink, t, poisoned)
 	case syscall.S_IFREG:
-		b, err := os.ReadFile(full)
-		h := sha256.Sum256(b)
-		hs := hex.EncodeToString(h[:])
-		if err != nil {
-			hs = "read-error " + err.Error()
+		hs := "not-read (larger than 1 MiB)" // e.g. a sparse file after a pwrite at 2^40: the size already differs
+		if st.Size <= 1<<20 {
+			b, err := os.ReadFile(full)
+			h := sha256.Sum256(b)
+			hs = hex.EncodeToString(h[:])
+			if err != nil {
+				hs = "read-error " + err.Error()
+			}
 		}
 		fmt.Fprintf(sb, "%s|f%o|%d|%d|%d|%d|%d||%s|%v\n", rel, mode&0o7777, st.Size, st.Mtim.Nano(), st.Ctim.Nano(), st.Ino, st.Nlink, hs, poisoned)
 	default:
